@@ -1,7 +1,9 @@
 /-
 Property theorems for the member operations proved so far at L2 (the slot machine that mirrors small_vector_base):
   push_back / emplace_back (`appendElement`), pop_back (`eraseLast`), erase(pos) (`eraseAt`),
-  erase(first,last) (`eraseRange`), clear (`eraseAll`).
+  erase(first,last) (`eraseRange`), clear (`eraseAll`), reserve (`requestCapacity`), shrink_to_fit (`shrinkToSize`),
+  resize(n) / resize(n, x) (`resizeWith`), append(first, last) for multi-pass ranges (`appendRangeFwd`),
+  insert(end, n, x) (`appendCopies`).
 Each theorem quantifies over every configuration `cfg`, every world satisfying the invariants (`VecOK`, `Ledger`),
 every inline capacity, inline or heap representation, and EVERY fault list (`w.faults` is arbitrary).
 They are thin corollaries of the operation specifications in Proofs/Append.lean and Proofs/Erase.lean, restated per
@@ -9,6 +11,7 @@ property so that the statements can be read against properties.jsonl.  Operation
 by the differential run and the monitors only; see DESIGN.md and the evidence files for the current list.
 -/
 import SvModel.Proofs.Examples
+import SvModel.Proofs.AppendN
 import SvModel.Spec.L0
 
 namespace SvModel
@@ -56,6 +59,43 @@ theorem clear_refines (cfg : Cfg) (c : Nat) (w w' : World α) (xs : List (Val α
     (hp : Pre cfg w c) (hx : Holds w c xs) (hr : eraseAll cfg c w = .ok () w') :
     Holds w' c (L0.clear xs) :=
   (sat_of_ok (eraseAll_sat cfg c w hp.vec hp.led) hr).holds xs hx
+
+/-- reserve / shrink_to_fit keep the contents -/
+theorem reserve_refines (cfg : Cfg) (c n : Nat) (w w' : World α) (xs : List (Val α))
+    (hp : Pre cfg w c) (hpol : StrongPolicy cfg) (hx : Holds w c xs) (hr : requestCapacity cfg c n w = .ok () w') :
+    Holds w' c xs :=
+  (sat_of_ok (requestCapacity_sat cfg c n w hp.vec hp.led hp.nmax hpol) hr).1.holds xs hx
+
+theorem shrink_to_fit_refines (cfg : Cfg) (c : Nat) (w w' : World α) (xs : List (Val α))
+    (hp : Pre cfg w c) (hpol : StrongPolicy cfg) (hx : Holds w c xs) (hr : shrinkToSize cfg c w = .ok () w') :
+    Holds w' c xs :=
+  (sat_of_ok (shrinkToSize_sat cfg c w hp.vec hp.led hp.nmax hpol) hr).1.holds xs hx
+
+/-- resize(n, x) (x may alias an own element; value-initialisation is the source `.value`) -/
+theorem resize_refines (cfg : Cfg) (c n : Nat) (s : Src α) (w w' : World α) (xs : List (Val α))
+    (hp : Pre cfg w c) (ha : ArgOK cfg w c s) (hpol : StrongPolicy cfg) (hx : Holds w c xs)
+    (hr : resizeWith cfg c n s w = .ok () w') :
+    Holds w' c (L0.resize xs n (srcVal w s)) :=
+  (sat_of_ok (resizeWith_sat cfg c n s w hp.vec hp.led hp.nmax ha hpol) hr).holds xs hx
+
+/-- append(first, last) over a multi-pass range of external values -/
+theorem append_range_refines (cfg : Cfg) (c : Nat) (vs : List α) (w w' : World α) (r : Nat) (xs : List (Val α))
+    (hp : Pre cfg w c) (hpol : StrongPolicy cfg) (hx : Holds w c xs)
+    (hr : appendRangeFwd cfg c true (vs.map Src.ext) w = .ok r w') :
+    Holds w' c (L0.append xs (vs.map Val.val)) ∧ r = xs.length := by
+  have h := sat_of_ok (appendRangeFwd_sat cfg c true _ w hp.vec hp.led hp.nmax (argsOK_ext cfg w c vs) (fun _ => hpol)) hr
+  have hm : (vs.map Src.ext).map (srcVal w) = vs.map Val.val := by simp [srcVal, Function.comp_def]
+  rw [hm] at h
+  exact ⟨h.2.holds xs hx, by rw [h.1, hx.1]⟩
+
+/-- insert(end(), n, x) -/
+theorem insert_n_at_end_refines (cfg : Cfg) (c n : Nat) (s : Src α) (w w' : World α) (r : Nat) (xs : List (Val α))
+    (hp : Pre cfg w c) (ha : ArgOK cfg w c s) (hx : Holds w c xs) (hr : appendCopies cfg c n s w = .ok r w') :
+    Holds w' c (L0.insertN xs xs.length n (srcVal w s)).1 ∧ r = (L0.insertN xs xs.length n (srcVal w s)).2 := by
+  have h := sat_of_ok (appendCopies_sat cfg c n s w hp.vec hp.led hp.nmax ha) hr
+  refine ⟨?_, by rw [h.1, hx.1]; rfl⟩
+  have := h.2.holds xs hx
+  simpa [L0.insertN] using this
 end C01
 
 namespace C02
@@ -89,6 +129,34 @@ theorem inv_clauses (cfg : Cfg) (w : World α) (c : Nat) (h : VecOK cfg w c) :
     ((w.hdr c).data ≠ (w.hdr c).inl →
         (w.hdr c).data ∈ w.live ∧ (w.mem (w.hdr c).data).length = (w.hdr c).cap ∧ w.owner (w.hdr c).data = (w.hdr c).alloc) :=
   ⟨h.size_le, h.cap_max, h.cap_ge, h.inl_iff, fun hne => ⟨(h.heap hne).1, h.len, (h.heap hne).2⟩⟩
+
+theorem reserve_inv (cfg : Cfg) (c n : Nat) (w : World α) (hp : Pre cfg w c) (hpol : StrongPolicy cfg) :
+    (requestCapacity cfg c n w).sat (fun _ w' => VecOK cfg w' c ∧ n ≤ (w'.hdr c).cap) (fun _ w' => VecOK cfg w' c) :=
+  Res.sat_mono (requestCapacity_sat cfg c n w hp.vec hp.led hp.nmax hpol) (fun _ _ h => ⟨h.1.basic.vec, h.2.1⟩)
+    (fun _ _ h => h.vecOK hp.led hp.vec)
+
+/-- after a successful shrink_to_fit, capacity = max(size, N): a container whose contents fit returns to its inline buffer -/
+theorem shrink_to_fit_post (cfg : Cfg) (c : Nat) (w w' : World α) (hp : Pre cfg w c) (hpol : StrongPolicy cfg)
+    (hr : shrinkToSize cfg c w = .ok () w') :
+    VecOK cfg w' c ∧ (w'.hdr c).cap = max (w.hdr c).size (w.hdr c).N ∧
+    ((w.hdr c).size ≤ (w.hdr c).N → (w'.hdr c).data = (w'.hdr c).inl) := by
+  have h := sat_of_ok (shrinkToSize_sat cfg c w hp.vec hp.led hp.nmax hpol) hr
+  refine ⟨h.1.basic.vec, h.2, fun hle => ?_⟩
+  apply (h.1.basic.vec.inl_iff).mp
+  rw [h.2, h.1.basic.frame.hdr_N, Nat.max_eq_right hle]
+
+theorem shrink_to_fit_inv (cfg : Cfg) (c : Nat) (w : World α) (hp : Pre cfg w c) (hpol : StrongPolicy cfg) :
+    (shrinkToSize cfg c w).sat (fun _ w' => VecOK cfg w' c) (fun _ w' => VecOK cfg w' c) :=
+  Res.sat_mono (shrinkToSize_sat cfg c w hp.vec hp.led hp.nmax hpol) (fun _ _ h => h.1.basic.vec) (fun _ _ h => h.vecOK hp.led hp.vec)
+
+theorem resize_inv (cfg : Cfg) (c n : Nat) (s : Src α) (w : World α) (hp : Pre cfg w c) (ha : ArgOK cfg w c s) (hpol : StrongPolicy cfg) :
+    (resizeWith cfg c n s w).sat (fun _ w' => VecOK cfg w' c ∧ (w'.hdr c).size = n) (fun _ w' => VecOK cfg w' c) :=
+  Res.sat_mono (resizeWith_sat cfg c n s w hp.vec hp.led hp.nmax ha hpol) (fun _ _ h => ⟨h.basic.vec, h.size⟩) (fun _ _ h => h.vecOK hp.led hp.vec)
+
+theorem append_range_inv (cfg : Cfg) (c : Nat) (strong : Bool) (vs : List α) (w : World α) (hp : Pre cfg w c) (hpol : StrongPolicy cfg) :
+    (appendRangeFwd cfg c strong (vs.map Src.ext) w).sat (fun _ w' => VecOK cfg w' c) (fun _ w' => VecOK cfg w' c) :=
+  Res.sat_mono (appendRangeFwd_sat cfg c strong _ w hp.vec hp.led hp.nmax (argsOK_ext cfg w c vs) (fun _ => hpol))
+    (fun _ _ h => h.2.basic.vec) (fun _ _ h => h.2.1.vec)
 end C02
 
 namespace C03
@@ -168,6 +236,29 @@ example : (match appendElement Ex.cfgT 0 (.ext 9) { Ex.w0 with faults := [1] } w
            | .ok _ _ => false) = true := by decide
 example : Pre Ex.cfgT Ex.w0 0 := ⟨Ex.w0_vec, Ex.w0_ledger, by decide, rfl⟩
 example : StrongPolicy Ex.cfgT := by intro h; revert h; decide
+
+/-- reserve, shrink_to_fit, resize and append(first, last): a throw leaves the world observably unchanged -/
+theorem reserve_strong (cfg : Cfg) (c n : Nat) (w w' : World α) (e : Exc) (hp : Pre cfg w c) (hpol : StrongPolicy cfg)
+    (hr : requestCapacity cfg c n w = .thrown e w') : Strong w w' :=
+  sat_of_thrown (requestCapacity_sat cfg c n w hp.vec hp.led hp.nmax hpol) hr
+
+theorem shrink_to_fit_strong (cfg : Cfg) (c : Nat) (w w' : World α) (e : Exc) (hp : Pre cfg w c) (hpol : StrongPolicy cfg)
+    (hr : shrinkToSize cfg c w = .thrown e w') : Strong w w' :=
+  sat_of_thrown (shrinkToSize_sat cfg c w hp.vec hp.led hp.nmax hpol) hr
+
+theorem resize_strong (cfg : Cfg) (c n : Nat) (s : Src α) (w w' : World α) (e : Exc) (hp : Pre cfg w c) (ha : ArgOK cfg w c s)
+    (hpol : StrongPolicy cfg) (hr : resizeWith cfg c n s w = .thrown e w') : Strong w w' :=
+  sat_of_thrown (resizeWith_sat cfg c n s w hp.vec hp.led hp.nmax ha hpol) hr
+
+theorem append_range_strong (cfg : Cfg) (c : Nat) (vs : List α) (w w' : World α) (e : Exc) (hp : Pre cfg w c) (hpol : StrongPolicy cfg)
+    (hr : appendRangeFwd cfg c true (vs.map Src.ext) w = .thrown e w') : Strong w w' :=
+  (sat_of_thrown (appendRangeFwd_sat cfg c true _ w hp.vec hp.led hp.nmax (argsOK_ext cfg w c vs) (fun _ => hpol)) hr).1 rfl
+
+/-- what `Strong` means for the container: same values (none moved-from), same size / capacity / data pointer, nothing leaked -/
+theorem strong_observably_unchanged (cfg : Cfg) (c : Nat) (w w' : World α) (xs : List (Val α)) (hp : Pre cfg w c)
+    (hs : Strong w w') (hx : Holds w c xs) :
+    Holds w' c xs ∧ w'.hdr c = w.hdr c ∧ w'.live = w.live ∧ VecOK cfg w' c ∧ Ledger w' :=
+  ⟨hs.holds hp.led hp.vec hx, by rw [hs.hdr], hs.live, hs.vecOK hp.led hp.vec, hs.led⟩
 end C05
 
 namespace C06
@@ -217,6 +308,26 @@ theorem erase_family_stable (cfg : Cfg) (c : Nat) (w : World α) (hp : Pre cfg w
   · exact Res.sat_mono (eraseRange_sat cfg c p q w hp.vec hp.led h1 h2) (fun _ _ h => ⟨h.2.data, h.2.cap⟩) (fun _ _ h => by rw [h.2.2]; exact ⟨rfl, rfl⟩)
   · exact Res.sat_mono (eraseLast_sat cfg c w hp.vec hp.led hne) (fun _ _ h => ⟨h.data, h.cap⟩) (fun _ _ h => h)
   · exact Res.sat_mono (eraseAll_sat cfg c w hp.vec hp.led) (fun _ _ h => ⟨h.data, h.cap⟩) (fun _ _ h => h)
+
+/-- reserve(n): capacity ≥ n afterwards; a no-op (nothing at all changes) when n ≤ capacity -/
+theorem reserve_post (cfg : Cfg) (c n : Nat) (w w' : World α) (hp : Pre cfg w c) (hpol : StrongPolicy cfg)
+    (hr : requestCapacity cfg c n w = .ok () w') :
+    n ≤ (w'.hdr c).cap ∧ (n ≤ (w.hdr c).cap → w'.hdr = w.hdr ∧ w'.mem = w.mem ∧ w'.next = w.next ∧ w'.live = w.live) := by
+  have h := sat_of_ok (requestCapacity_sat cfg c n w hp.vec hp.led hp.nmax hpol) hr
+  exact ⟨h.2.1, h.2.2.1⟩
+
+/-- resize / append that fit in the capacity: same buffer, same capacity, no allocation -/
+theorem resize_in_place (cfg : Cfg) (c n : Nat) (s : Src α) (w w' : World α) (hp : Pre cfg w c) (ha : ArgOK cfg w c s)
+    (hpol : StrongPolicy cfg) (hfit : n ≤ (w.hdr c).cap) (hr : resizeWith cfg c n s w = .ok () w') :
+    (w'.hdr c).data = (w.hdr c).data ∧ (w'.hdr c).cap = (w.hdr c).cap ∧ w'.next = w.next ∧ w'.live = w.live :=
+  (sat_of_ok (resizeWith_sat cfg c n s w hp.vec hp.led hp.nmax ha hpol) hr).fits hfit
+
+theorem append_range_in_place (cfg : Cfg) (c : Nat) (vs : List α) (w w' : World α) (r : Nat) (hp : Pre cfg w c) (hpol : StrongPolicy cfg)
+    (hfit : (w.hdr c).size + vs.length ≤ (w.hdr c).cap) (hr : appendRangeFwd cfg c true (vs.map Src.ext) w = .ok r w') :
+    (w'.hdr c).data = (w.hdr c).data ∧ (w'.hdr c).cap = (w.hdr c).cap ∧ w'.next = w.next ∧ w'.live = w.live ∧
+    ∀ i, i < (w.hdr c).size → (w'.mem (w.hdr c).data)[i]? = (w.mem (w.hdr c).data)[i]? := by
+  have h := (sat_of_ok (appendRangeFwd_sat cfg c true _ w hp.vec hp.led hp.nmax (argsOK_ext cfg w c vs) (fun _ => hpol)) hr).2
+  exact h.inplace (by simpa using hfit)
 end C10
 
 namespace C11
@@ -238,6 +349,19 @@ theorem push_back_alias (cfg : Cfg) (c i : Nat) (w w' : World α) (r : Nat) (xs 
 example : (match appendElement Ex.cfgT 0 (.copyOf 0 0) Ex.w0 with
            | .ok r w' => r == 2 && (w'.mem (w'.hdr 0).data).take 3 == [.obj (.val 1), .obj (.val 2), .obj (.val 1)]
            | .thrown _ _ => false) = true := by decide
+
+/-- resize(n, v[i]) behaves as resize(n, copy of v[i]) — reallocating or not -/
+theorem resize_alias (cfg : Cfg) (c n i : Nat) (w w' : World α) (xs : List (Val α))
+    (hp : Pre cfg w c) (hpol : StrongPolicy cfg) (hx : Holds w c xs) (hi : i < xs.length)
+    (hr : resizeWith cfg c n (.copyOf (w.hdr c).data i) w = .ok () w') :
+    Holds w' c (L0.resize xs n xs[i]) := by
+  have hslot := hx.2 i hi
+  have ha : ArgOK cfg w c (.copyOf (w.hdr c).data i) :=
+    ⟨rfl, fun b j hl => by simp [Src.loc] at hl; obtain ⟨h1, h2⟩ := hl; subst h1; subst h2; exact ⟨_, hslot⟩,
+     fun b j hl => by simp [Src.loc] at hl; obtain ⟨h1, h2⟩ := hl; subst h1; subst h2; exact ⟨rfl, by rw [← hx.1]; exact hi⟩⟩
+  have h := (sat_of_ok (resizeWith_sat cfg c n _ w hp.vec hp.led hp.nmax ha hpol) hr).holds xs hx
+  rw [srcVal_copyOf w _ _ _ hslot] at h
+  exact h
 end C11
 
 end SvModel
